@@ -160,7 +160,9 @@ AbsHashClass(n) == Canon(n, "loose", "", "")
 (* Step tokens: "<slot>:<D|L|O>" (dictionary / list / object reached),     *)
 (* "#k:O" (object stored under a dictionary key), "#i:O" (array element).  *)
 (*   deepcopy, pickle : every reachable cell                               *)
-(*   copy.copy        : only the object itself (attribute rebinding)       *)
+(*   copy.copy        : only the object itself (attribute rebinding); a    *)
+(*                      NocaseDict has no attribute but its item storage,  *)
+(*                      which a "completely shallow" copy shares: free     *)
 (*   .copy()          : the documented middle depth - the object, its      *)
 (*                      child dictionaries, its value list, its path (for  *)
 (*                      an instance: to the middle depth of the path);     *)
@@ -183,7 +185,7 @@ Methods == {"copy", "copy.copy", "deepcopy", "pickle"}
 
 MustIndep(m, k, st) ==
   CASE m \in {"deepcopy", "pickle"} -> TRUE
-    [] m = "copy.copy" -> st = <<>>
+    [] m = "copy.copy" -> st = <<>> /\ k # "NocaseDict"
     [] m = "copy" -> FreshUnderCopy(k, st)
     [] OTHER -> FALSE
 
